@@ -3,6 +3,12 @@ import DaeVerif.C18.Model
 character classes of the formatters, association lists, and the history invariant. -/
 namespace DaeVerif.C18
 
+/-- "known to be genuine" as the code decides it in domain mode: not an IP-like value, and either
+an unexpired knowledge entry for `(name, family of dst)` or membership in the verified set
+(spelled out by `Props.genuine_iff`, traced back to events by `Props.genuine_name_has_witness`). -/
+def genuine (w : World) (dst : Dst) (d : Str) : Bool :=
+  !isIPLike d && ((hasKnowledge w (cacheKey d dst.is4)).2 || w.realSet.contains d)
+
 /-! ## `hasChar` -/
 
 @[simp] theorem hasChar_nil (c : Char) : hasChar c [] = false := rfl
